@@ -174,6 +174,7 @@ func C20(c *core.Ctx) {
 	c20Round4(c, pkg)
 	c20TimeoutNode(c, pkg)
 	c20ReplyDeadline(c)
+	c20NackByHeader(c)
 
 	// ---- R20.2 onData gates
 	if od := c.Fn("R20.2", "std/engine/basic", "Engine", "onData"); od != nil {
@@ -515,21 +516,25 @@ func C20(c *core.Ctx) {
 				}
 			})
 			if len(sends) > 0 {
-				expired := &core.Atom{Name: "Deadline.Before(now)", Match: func(cond ssa.Value) (int, int) {
-					return timeAfter(cond, func(v ssa.Value) bool {
-						cl, ok := v.(*ssa.Call)
-						return ok && cl.Call.IsInvoke() && cl.Call.Method.Name() == "Now"
-					}, func(v ssa.Value) bool {
+				// "only before the deadline": the send needs an edge asserting that the
+				// deadline is strictly after now — at now == deadline the lifetime has fully
+				// elapsed (the timeout sweep of Express counts an Interest as expired from
+				// that instant on)
+				alive := &core.Atom{Name: "Deadline.After(now)", Match: func(cond ssa.Value) (int, int) {
+					return timeAfterStrict(cond, func(v ssa.Value) bool {
 						_, path := core.FieldPath(v)
 						return len(path) > 0 && path[len(path)-1] == "Deadline"
+					}, func(v ssa.Value) bool {
+						cl, ok := v.(*ssa.Call)
+						return ok && cl.Call.IsInvoke() && cl.Call.Method.Name() == "Now"
 					})
 				}}
-				g := core.GateDeep(core.RootOf(f), sends, neg(expired))
+				g := core.GateDeep(core.RootOf(f), sends, pos(alive))
 				okReply = g.OK && g.PassEdges > 0
 			}
 		}
 		c.Decide(okLookup, "R20.2", "handler-longest-prefix", p.Pos(oi.Pos()), "the handler is the first non-nil value walking Parent() from PrefixMatch(name), under fibLock", "onInterest does not select the handler attached at the longest matching prefix under the FIB lock")
-		c.Decide(okReply, "R20.2", "reply-before-deadline", p.Pos(oi.Pos()), "Reply sends nothing once the Interest's deadline has passed", "Reply transmits Data although the Interest's deadline has passed")
+		c.Decide(okReply, "R20.2", "reply-before-deadline", p.Pos(oi.Pos()), "Reply sends only on an edge asserting that the deadline is strictly after now", "Reply transmits Data although the Interest's deadline has been reached (now >= deadline; a test of the form Deadline.Before(now) still sends at now == deadline)")
 	}
 }
 
@@ -1280,4 +1285,42 @@ func c20ReplyDeadline(c *core.Ctx) {
 	})
 	c.Extra["onInterest_deadline_adds"] = nAdd
 	c.Decide(nAdd > 0 && nConst > 0 && bad == "", "R20.9", "reply-deadline-from-the-interests-own-lifetime", p.Pos(oi.Pos()), fmt.Sprintf("%d Time.Add in onInterest; the constant default reaches it only where Lifetime() is nil", nAdd), "onInterest can give an Interest that carries a lifetime the default lifetime as its reply deadline ("+bad+"): for an Interest with InterestLifetime 0 (or any value the added condition excludes) a reply is still transmitted seconds after that Interest expired")
+}
+
+// c20NackByHeader — R20.10: a packet that carries a Nack header is a Nack, whatever its
+// reason code (0, "none", is what a Nack header without a reason decodes to). From every
+// edge of onPacket that asserts the Nack header present, the hand-over to the Interest
+// handlers is unreachable (the validity-flag idiom of an isNack variable is followed):
+// otherwise the application's own Interest comes back to it as an incoming Interest and
+// the pending Interest is left to time out instead of resolving with the Nack.
+func c20NackByHeader(c *core.Ctx) {
+	p := c.P
+	op := c.Fn("R20.10", "std/engine/basic", "Engine", "onPacket")
+	if op == nil {
+		return
+	}
+	var handovers []ssa.Instruction
+	core.Instrs(op, func(in ssa.Instruction) {
+		if ci, ok := in.(ssa.CallInstruction); ok {
+			if id, okID := core.Callee(ci.Common()); okID && id.Recv == "Engine" && id.Name == "onInterest" {
+				handovers = append(handovers, in)
+			}
+		}
+	})
+	hasNack := atomValNonNil("LpPacket.Nack != nil", func(v ssa.Value) bool { _, ok := core.FieldOf(v, "Nack"); return ok })
+	cut := core.FlagCuts(op, handovers)
+	nEdges := 0
+	bad := ""
+	for _, f := range core.EdgeFacts(op, hasNack) {
+		if !f.Holds || cut[f.E] {
+			continue
+		}
+		nEdges++
+		for _, h := range handovers {
+			if path := core.ReachInstrFrom(core.Point{Block: f.E.To, Idx: 0}, h, cut, nil); path != nil {
+				bad = p.PathString(path)
+			}
+		}
+	}
+	c.Decide(len(handovers) > 0 && nEdges > 0 && bad == "", "R20.10", "nack-header-decides", p.Pos(op.Pos()), fmt.Sprintf("%d edges assert the Nack header; the hand-over to the Interest handlers is unreachable from them", nEdges), "onPacket can hand a packet that carries a Nack header to the Interest handlers ("+bad+") — e.g. it decides by the reason code, and 0 is what a Nack without a reason decodes to: the application's own Interest is delivered to its handler and the pending Interest is left to time out instead of resolving with the Nack")
 }
